@@ -57,6 +57,7 @@ type Contract struct {
 	Fresh    bool   // result is a freshly allocated reference
 	Havoc    string // extern: "all" | "none" | "" (default by args)
 	Inline   bool
+	SplitReturns bool // "returns split": postconditions are proved at every return separately (large functions)
 	Lemmas   []string
 	LocalLemmas []*LocalLemma
 
@@ -527,6 +528,11 @@ func (w *World) parseBlocks(ls []rawLine, pkgPath string) error {
 			cur.Fresh = true
 		case "inline":
 			cur.Inline = true
+		case "returns":
+			if rest != "split" {
+				return fail2("expected: returns split")
+			}
+			cur.SplitReturns = true
 		case "havoc":
 			cur.Havoc = rest
 		case "requires", "ensures", "domain", "assumed-ensures":
